@@ -387,6 +387,8 @@ type FSStats struct {
 	ShortReads  int
 	Poisoned    int
 	Remaps      int
+	// SliceOverAlloc: bytes allocated by Slice calls that reached past the end of the file (copying personality)
+	SliceOverAlloc int64
 }
 
 type SimFS struct {
@@ -990,6 +992,14 @@ func (f *simFile) Slice(start, end int64) ([]byte, error) {
 	f.fs.enter("slice")
 	if f.closed {
 		return nil, os.ErrClosed
+	}
+	if !f.fs.cfg.Alias && end > f.in.size() && end >= start {
+		// the copying personality behaves like the shipped fs.OS: it allocates the requested length first and
+		// finds out that the file is shorter when it reads (a caller that passes untrusted lengths pays for them)
+		b := make([]byte, end-start)
+		_ = b
+		f.fs.Stats.SliceOverAlloc += end - start
+		return nil, io.EOF
 	}
 	if end > f.in.size() {
 		return nil, io.EOF
